@@ -13,6 +13,16 @@ ALLOWED_AXIOMS = {
 }
 
 PROPS = {
+    "C03": {
+        "n": {"quick": 1600, "thorough": 40000},
+        "shards": 16,
+        "trusted": [
+            "lexer and parser models: function-by-function transcriptions of lexer.go and parser.go (decimal.NewFromString, strconv.Atoi, strings.Split/Index/TrimSpace modelled); tied by comparing the FULL AST (every field and range) and every error position with parser.Parse on each generated input, including arbitrary bytes",
+            "the G generator / printer lives in the Go harness (harness/gen.go): the structure a text was printed from is trusted as printed",
+        ],
+        "assumptions": ["comment texts are compared after trimming surrounding blanks"],
+        "explanation": "10 refutation witnesses through the models (vm_compute), baseline non-vacuity, lexer totality; tie: full AST + error positions; oracle: no syntax error and extract(AST) = the structure the text was printed from",
+    },
     "C06": {
         "n": {"quick": 1200, "thorough": 40000},
         "shards": 16,
